@@ -15,8 +15,6 @@ package main
 
 import (
 	"fmt"
-	"os"
-	"runtime/pprof"
 	"sort"
 	"strings"
 	"sync"
@@ -25,15 +23,7 @@ import (
 	"verif/vf"
 )
 
-func main() {
-	if f := os.Getenv("C34_CPUPROFILE"); f != "" {
-		w, _ := os.Create(f)
-		pprof.StartCPUProfile(w)
-		orig := run
-		vf.Main("C34", vf.ModelChecking, func(c *vf.Ctx) { orig(c); pprof.StopCPUProfile(); w.Close() })
-	}
-	vf.Main("C34", vf.ModelChecking, run)
-}
+func main() { vf.Main("C34", vf.ModelChecking, run) }
 
 type unit struct {
 	cs      *clientSpec
@@ -175,7 +165,7 @@ func run(c *vf.Ctx) {
 	if c.Thorough {
 		k = 3
 	}
-	tierNote := "quick tier: signer-kind configurations use skeletons 2-4, 6 EXT_INFO variants and 4 of the 8 method lists {all, all but publickey, publickey only, empty} in FAILURE answers; executions that run to the 64-attempt cap (partial-success-forever persona, looping AuthCallback) take <=1 deviation within their first 6 choice points"
+	tierNote := "quick tier: signer-kind configurations use skeletons 2-4 and 6 EXT_INFO variants; executions that run to the 64-attempt cap (partial-success-forever persona, looping AuthCallback) take <=1 deviation within their first 6 choice points"
 	if c.Thorough {
 		tierNote = "thorough tier: all skeletons, EXT_INFO variants and method lists at <=2 deviations; <=3 deviations for the 24 core configurations (ordered subsets of {Password, KeyboardInteractive, PublicKeys(k1,k2)}, RetryableAuthMethod/AuthCallback variants; accepting and rejecting persona, no EXT_INFO) and for PublicKeys(a,b) of every signer pair (accepting persona, server-sig-algs=rsa-sha2-256,rsa-sha2-512); cap-reaching executions <=2 (signer-kind configurations <=1) deviations within their first 8 choice points"
 	}
@@ -213,7 +203,7 @@ func run(c *vf.Ctx) {
 				}
 			}
 		}
-		u.slim = cs.skeleton >= 0 && !c.Thorough
+		u.slim = false
 		units = append(units, u)
 	}
 	for _, cs := range full {
